@@ -202,6 +202,7 @@ func integrityMain(args []string) error {
 	fs := flag.NewFlagSet("integrity", flag.ExitOnError)
 	in := fs.String("in", "", "cases")
 	scratch := fs.String("scratch", "", "scratch")
+	bossMode := fs.String("boss", "idxNull", "wiring of people.boss: idxNull | conNoneNull")
 	_ = fs.Parse(args)
 	logrus.SetOutput(io.Discard)
 	f, err := os.Open(*in)
@@ -246,7 +247,7 @@ func integrityMain(args []string) error {
 			if idx%2 == 1 {
 				table = prefixIds
 			}
-			env, err := storerun.NewEnv(*scratch, schema.Config{BossMode: "idxNull", TeamMode: "off", ChildExtended: idx%4 == 1}, project.NewTokens(table))
+			env, err := storerun.NewEnv(*scratch, schema.Config{BossMode: *bossMode, TeamMode: "off", ChildExtended: idx%4 == 1}, project.NewTokens(table))
 			if err != nil {
 				add("harness", err.Error())
 				return
